@@ -74,6 +74,11 @@ def mk(codes, signed, n, f, dirty_ok=False, **cfg):
     Small-word operands are reached through a content-determined history (see empty_via_history); histories 6 and 7 obtain the
     operand from a larger object: 6 = an element / a slice of a longer array, 7 = flatten() of a 2-D array (and its element)."""
     h = hist_of(n, f, int(signed), len(codes), *[c % 97 for c in codes[:4]]) if n <= 60 else 0
+    # options that only mean something to other operations (NumPy array conversion, the spelling of the dtype string) are set on
+    # every fourth operand (content-determined): they change nothing of what the properties speak about
+    if (n * 3 + f + len(codes) + codes[0]) % 4 == 0:
+        cfg.setdefault('array_op_method', 'raw')
+        cfg.setdefault('dtype_notation', 'Q')
     if h in (6, 7, 11) and ('op_out' in cfg or 'op_out_like' in cfg):
         h = 1       # indexing / flatten / a keep-mode shift deep-copy the configuration, so an op_out target would (rightly) be a copy: not this route
     if h in (8, 9):
